@@ -6,7 +6,8 @@
                                                                       write.send_message(msg).await  (guard dropped)  LSend i ok
                                         if flags.contains(NoReplyExpected) { Ok(None) } else { Ok(Some(PendingMethodCall{..})) }
         Connection::call_method         timeout(method, tout) if method_timeout is configured, else method.await     LTimeout i
-        Proxy::call_with_flags          call_method_raw(..).await? { Some(reply) => reply.await?, None => Ok(None) } (no timeout)
+        Proxy::call_with_flags          call_method_raw(..).await? { Some(reply) => match conn.method_timeout() {
+                                            Some(tout) => timeout(reply, tout).await?, None => reply.await? }, None => Ok(None) }   LTimeout i
         PendingMethodCall::poll_before  loop { match stream.poll_next_before(..) {                                   LRecv i
                                           Item(Ok(msg))  => if msg.reply_serial() != Some(serial) { continue }
                                                             match msg.message_type() { Error => Err(msg.into()), MethodReturn => Ok(msg),
@@ -16,6 +17,9 @@
                                           Pending        => return Pending } }
         Connection::new                 one channel (capacity DEFAULT_MAX_METHOD_RETURN_QUEUED) registered in msg_senders under BOTH
                                         `type='method_return'` and `type='error'`
+        Connection::add_match           (MessageStream::for_match_rule with exactly one of these two rules)              LHijack e
+                                        Vacant(e) => { ..; msg_senders.lock().await.insert(Some(rule), sender) }  — HashMap::insert
+                                        replaces the connection's own sender under that key
      zbus/src/connection/socket_reader.rs
         SocketReader::receive_msg       loop { let msg = self.read_socket().await;                                   LRead
                                                for (rule, sender) in &*senders { if matches { sender.broadcast_direct(msg.clone()).await } }
@@ -63,23 +67,21 @@ Record sys := {
   wire : list N;                      (* serials of the calls written so far *)
   wlock : option nat;                 (* socket_write: which caller holds it *)
   tmo : bool;                         (* Builder::method_timeout configured *)
+  kret : bool;                        (* msg_senders[type='method_return'] still is the connection's own sender *)
+  kerr : bool;                        (* msg_senders[type='error'] still is the connection's own sender *)
   done_log : list (nat * result)      (* ghost: completions, in order *)
 }.
 
 Definition init (cs : list (ckind * N)) (capacity : nat) (t : bool) : sys :=
   {| callers := map (fun p => {| c_kind := fst p; c_serial := snd p; c_st := CInit |}) cs;
-     ch := new_chan capacity; reader := RIdle; socket := []; wire := []; wlock := None; tmo := t; done_log := [] |}.
+     ch := new_chan capacity; reader := RIdle; socket := []; wire := []; wlock := None; tmo := t; kret := true; kerr := true; done_log := [] |}.
 
 Definition is_reply (t : mtype) : bool := match t with TReturn | TError => true | _ => false end.
 (* PendingMethodCall's test *)
 Definition answers (m : msg) (serial : N) : bool :=
   match m_rs m with Some r => N.eqb r serial | None => false end && is_reply (m_type m).
 (* how many entries of msg_senders lead to the method-return channel for this item *)
-Definition fanout (it : item) : nat :=
-  match it with
-  | IMsg m => if is_reply (m_type m) then 1 else 0
-  | IFail _ => 2
-  end.
+Definition b2n (b : bool) : nat := if b then 1 else 0.
 
 Fixpoint upd {A} (l : list A) (i : nat) (x : A) : list A :=
   match l, i with
@@ -91,22 +93,40 @@ Fixpoint upd {A} (l : list A) (i : nat) (x : A) : list A :=
 Definition set_st (c : caller) (st : cstate) : caller := {| c_kind := c_kind c; c_serial := c_serial c; c_st := st |}.
 
 Definition with_callers (s : sys) (cs : list caller) : sys :=
-  {| callers := cs; ch := ch s; reader := reader s; socket := socket s; wire := wire s; wlock := wlock s; tmo := tmo s; done_log := done_log s |}.
+  {| callers := cs; ch := ch s; reader := reader s; socket := socket s; wire := wire s; wlock := wlock s; tmo := tmo s; kret := kret s; kerr := kerr s; done_log := done_log s |}.
 Definition with_ch (s : sys) (c : chan item) : sys :=
-  {| callers := callers s; ch := c; reader := reader s; socket := socket s; wire := wire s; wlock := wlock s; tmo := tmo s; done_log := done_log s |}.
+  {| callers := callers s; ch := c; reader := reader s; socket := socket s; wire := wire s; wlock := wlock s; tmo := tmo s; kret := kret s; kerr := kerr s; done_log := done_log s |}.
 Definition with_reader (s : sys) (r : rstate) : sys :=
-  {| callers := callers s; ch := ch s; reader := r; socket := socket s; wire := wire s; wlock := wlock s; tmo := tmo s; done_log := done_log s |}.
+  {| callers := callers s; ch := ch s; reader := r; socket := socket s; wire := wire s; wlock := wlock s; tmo := tmo s; kret := kret s; kerr := kerr s; done_log := done_log s |}.
 Definition with_socket (s : sys) (k : list item) : sys :=
-  {| callers := callers s; ch := ch s; reader := reader s; socket := k; wire := wire s; wlock := wlock s; tmo := tmo s; done_log := done_log s |}.
+  {| callers := callers s; ch := ch s; reader := reader s; socket := k; wire := wire s; wlock := wlock s; tmo := tmo s; kret := kret s; kerr := kerr s; done_log := done_log s |}.
 Definition with_wire (s : sys) (w : list N) : sys :=
-  {| callers := callers s; ch := ch s; reader := reader s; socket := socket s; wire := w; wlock := wlock s; tmo := tmo s; done_log := done_log s |}.
+  {| callers := callers s; ch := ch s; reader := reader s; socket := socket s; wire := w; wlock := wlock s; tmo := tmo s; kret := kret s; kerr := kerr s; done_log := done_log s |}.
 Definition with_wlock (s : sys) (h : option nat) : sys :=
-  {| callers := callers s; ch := ch s; reader := reader s; socket := socket s; wire := wire s; wlock := h; tmo := tmo s; done_log := done_log s |}.
+  {| callers := callers s; ch := ch s; reader := reader s; socket := socket s; wire := wire s; wlock := h; tmo := tmo s; kret := kret s; kerr := kerr s; done_log := done_log s |}.
 
 (* the call's future returns r: its stream (receiver) is dropped with it *)
 Definition finish (s : sys) (i : nat) (c : caller) (r : result) : sys :=
   {| callers := upd (callers s) i (set_st c (CDone r)); ch := drop_rcv i (ch s); reader := reader s; socket := socket s;
-     wire := wire s; wlock := wlock s; tmo := tmo s; done_log := done_log s ++ [(i, r)] |}.
+     wire := wire s; wlock := wlock s; tmo := tmo s; kret := kret s; kerr := kerr s; done_log := done_log s ++ [(i, r)] |}.
+
+(* how many entries of msg_senders lead to the method-return channel for this item: Connection::new registers the one sender
+   under the two rules type='method_return' and type='error'; an entry is lost when the application subscribes to exactly
+   that rule (LHijack) *)
+Definition fanout (s : sys) (it : item) : nat :=
+  match it with
+  | IMsg m => match m_type m with TReturn => b2n (kret s) | TError => b2n (kerr s) | _ => 0 end
+  | IFail _ => b2n (kret s) + b2n (kerr s)
+  end.
+
+(* MessageStream::for_match_rule("type='method_return'") (e = false) / ("type='error'") (e = true): Connection::add_match finds
+   no subscription for the rule (Vacant) and does msg_senders.insert(Some(rule), sender) — under the key of the connection's
+   own entry, whose sender is dropped; when both are gone the channel has lost its last sender and closes *)
+Definition hijack (s : sys) (e : bool) : sys :=
+  let r := if e then kret s else false in
+  let x := if e then false else kerr s in
+  {| callers := callers s; ch := if r || x then ch s else close (ch s); reader := reader s; socket := socket s; wire := wire s;
+     wlock := wlock s; tmo := tmo s; kret := r; kerr := x; done_log := done_log s |}.
 
 Inductive label :=
   | LSub (i : nat)               (* activate_cloned *)
@@ -117,7 +137,8 @@ Inductive label :=
   | LRead                        (* read_socket() returns the next item *)
   | LPush                        (* one broadcast_direct completes (or fails at once) *)
   | LNext                        (* the for loop over the senders is over *)
-  | LArrive (it : item).         (* the transport has one more item for us *)
+  | LArrive (it : item)          (* the transport has one more item for us *)
+  | LHijack (e : bool).          (* the application's add_match for the rule of an internal entry inserts its sender *)
 
 Definition not_sent (st : cstate) : bool := match st with CInit | CSubscribed | CSending => true | _ => false end.
 (* some call of ours with serial r has not been written yet *)
@@ -183,14 +204,14 @@ Definition step (l : label) (s : sys) : option sys :=
   | LTimeout i =>
       match nth_error (callers s) i with
       | Some c => match c_st c, c_kind c with
-                  | CWaiting, KCall => if tmo s then Some (finish s i c RTimedOut) else None
+                  | CWaiting, (KCall | KFlags) => if tmo s then Some (finish s i c RTimedOut) else None
                   | _, _ => None
                   end
       | None => None
       end
   | LRead =>
       match reader s, socket s with
-      | RIdle, it :: rest => Some (with_reader (with_socket s rest) (RPush it (fanout it)))
+      | RIdle, it :: rest => Some (with_reader (with_socket s rest) (RPush it (fanout s it)))
       | _, _ => None
       end
   | LPush =>
@@ -210,6 +231,12 @@ Definition step (l : label) (s : sys) : option sys :=
       | _ => None
       end
   | LArrive it => if causal_ok s it then Some (with_socket s (socket s ++ [it])) else None
+  | LHijack e =>
+      (* add_match needs msg_senders (not while the reader is in its fan-out) and refuses once the reader has failed *)
+      match reader s with
+      | RIdle => if (if e then kerr s else kret s) then Some (hijack s e) else None
+      | _ => None
+      end
   end.
 
 Fixpoint exec (tr : list label) (s : sys) : option sys :=
